@@ -41,7 +41,7 @@ MANIFEST = {
             "payloads per flavour, arity 0..2, keyword names from a small alphabet, every argument value a z3 integer "
             "proxy, 1..3 polling cycles waited): every payload and every live service appears exactly once in the "
             "start log written by the payloads themselves, under the requested flavour, with the very argument "
-            "objects; every adopt returned None and did not raise.",
+            "objects; every adopt returned None and did not raise. Next to the solver-decided claim, seven ENUMERATED real-runtime scenarios (adopt while a trio payload is still in its shielded cleanup, after shutdown() and after a failure) are run concretely and reported as such.",
     "note": "NOT claimed: submission racing with a shutdown in progress (the property text itself notes adopt may still "
             "raise ClosedResourceError there), interleavings of several submitters, timing",
     "design_ref": "DESIGN.md §4 C03",
